@@ -122,6 +122,36 @@ def cccfg(cfg):
                 cz(cfg["version"]), clist(cfg["offers"], cl)))
 
 
+def curl(cfg):
+    o = cfg.get("url_oracle")
+    if not o:
+        return "None"
+    if "raises" in o:
+        up = "UpRaises"
+    else:
+        sc, h, p, path, q, frag, netloc = o["ok"]
+        ps = "PortNone" if "none" in p else ("PortRaises" if "raises" in p else "(PortSome %s)" % cz(p["some"]))
+        up = "(UpOk %s %s %s %s %s %s %s)" % (cl(sc), copt(h, cl), ps, cl(path), cl(q), cl(frag), cl(netloc))
+    return "(Some {| uc_parsed := %s; uc_unquoted := %s; uc_factory_path := %s |})" % (up, cl(o.get("unquoted", [])), cl(cfg["path"]))
+
+
+def url_target(url):
+    """the request-target of a ws:// URL by plain string surgery (independent of urllib and of parse_url):
+    everything after the authority up to a '#', "/" for an empty path, no '?' for an empty query"""
+    rest = url.split("://", 1)[1]
+    cut = min([rest.index(ch) for ch in "/?#" if ch in rest] or [len(rest)])
+    tail = rest[cut:].split("#", 1)[0]
+    path, _, query = tail.partition("?")
+    return (path or "/") + ("?" + query if query else "")
+
+
+def drop_path_params(target):
+    """what urlparse().path + '?' + query gives: the ';...' of the LAST path segment removed"""
+    path, sep, query = target.partition("?")
+    head, slash, last = path.rpartition("/")
+    return head + slash + last.split(";", 1)[0] + sep + query
+
+
 def server_term(fw, case, res, chunks=None):
     return "{| sc_cfg := %s; sc_policy := %s; sc_tables := %s; sc_chunks := %s; sc_expect := %s |}" % (
         cscfg(res["cfg"], fw), cpolicy(case.get("policy")), ctables(res["tables"]),
@@ -129,8 +159,8 @@ def server_term(fw, case, res, chunks=None):
 
 
 def client_term(case, res, chunks=None):
-    return ("{| cc_cfg := %s; cc_nonce := %s; cc_tables := %s; cc_request := %s; cc_chunks := %s; cc_expect := %s |}" % (
-        cccfg(res["cfg"]), chex(case["nonce"]), ctables(res["tables"]), chex(res["request"]),
+    return ("{| cc_cfg := %s; cc_url := %s; cc_nonce := %s; cc_tables := %s; cc_request := %s; cc_chunks := %s; cc_expect := %s |}" % (
+        cccfg(res["cfg"]), curl(res["cfg"]), chex(case["nonce"]), ctables(res["tables"]), chex(res["request"]),
         clist(chunks if chunks is not None else case["chunks"], chex), ccout(res["outcome"])))
 
 
@@ -444,6 +474,15 @@ def nonce_of(seed, i):
     return hashlib.sha256(f"{seed}/nonce/{i}".encode()).digest()[:16]
 
 
+# client URLs: percent-escapes in the path (space, '/', '?', '%', '#', non-ASCII) with and without a query, escapes and
+# fragment-like / reserved characters in the query, empty path / empty query, default and explicit ports
+URLS = ["ws://example.com/chat?x=1", "ws://localhost", "wss://h.example:8443/a/b", "ws://[::1]:9000/",
+        "ws://example.com:9000/chat%20room/a%2Fb?token=x%26y&lang=en", "ws://example.com:9000/chat%20room/a%2Fb",
+        "ws://example.com/a%3Fb?c=d", "ws://example.com/a%3Fb", "ws://example.com/100%25/x?p=100%25", "ws://example.com/caf%C3%A9/%E2%82%AC?n=%C3%A9",
+        "ws://example.com/caf%C3%A9", "ws://example.com/a%23b?frag=%23x", "ws://example.com/p?q=a/b?c=d&e=%3F", "ws://example.com/p?", "ws://example.com?x=1",
+        "ws://example.com/%2F%2F?%2F", "ws://example.com/a+b/c;d=e?f=g+h;i", "wss://example.com/%7Euser/%41?%41=%7E", "ws://example.com:80/x%20y?z=%20"]
+
+
 def base_client_spec(rng, nonce, rich=False):
     key = base64.b64encode(nonce).decode()
     spec = {"rl": ["HTTP/1.1", "101", "Switching", "Protocols"],
@@ -455,7 +494,7 @@ def base_client_spec(rng, nonce, rich=False):
             if rng.random() < 0.7:
                 spec["headers"].append(["Sec-WebSocket-Protocol", rng.choice(spec["factory"]["protocols"])])
         if rng.random() < 0.3:
-            spec["factory"]["url"] = rng.choice(["ws://example.com/chat?x=1", "ws://localhost", "wss://h.example:8443/a/b", "ws://[::1]:9000/"])
+            spec["factory"]["url"] = rng.choice(URLS)
         if rng.random() < 0.3:
             spec["factory"]["origin"] = "http://good.com"
         if rng.random() < 0.3:
@@ -573,7 +612,7 @@ def e2e_space():
         allowed=[(["*"], True), (["http://good.com:80"], True), (["https://*.example.com:8443", "http://good.com:*"], False), (["*"], False)],
         offers=[[], ["deflate"], ["deflate", "bzip2"], ["deflate-nct"]], sacc=[None, "any", "bzip2"], cacc=[None, "any"],
         cheaders=[None, {"X-Client": "1", "Cookie": "k=v; a=b"}], sheaders=[None, {"X-Frame-Options": "DENY"}],
-        url=["ws://localhost:9000", "ws://example.com/chat?x=1&y=%20", "ws://localhost", "ws://[::1]:9000/p", "wss://h.example:8443/a/b"],
+        url=["ws://localhost:9000", "ws://example.com/chat?x=1&y=%20", "ws://localhost", "ws://[::1]:9000/p", "wss://h.example:8443/a/b"] + URLS[4:],
         extport=[None, "match", "other"], useragent=["default", None], server=["default", None],
         cuts=[[], [0.5], [0.1, 0.9], [0.01, 0.3, 0.31, 0.99]])
 
@@ -744,6 +783,13 @@ def build_cases(ck):
                 case, _ = spec_to_client_case(spec, nonce, chunks)
                 case["timeout"] = rep == 0
                 Cc.append((case, {"name": "grammar/" + name, "expect": ex, "key": spec["key"], "group": g, "data": data.hex(), "mine": spec["factory"].get("protocols") or []}))
+    for ui, url in enumerate(URLS):
+        n += 1
+        nonce = nonce_of(seed, f"url{ui}")
+        spec = base_client_spec(rng, nonce)
+        spec["factory"]["url"] = url
+        case, data = spec_to_client_case(spec, nonce)
+        Cc.append((case, {"name": "grammar/url", "expect": "open", "key": spec["key"], "group": group(), "data": data.hex(), "mine": []}))
     # end to end
     sp = e2e_space()
     er = ck.rng("e2e")
@@ -938,8 +984,11 @@ def analyse(ck, fw, S, Cc, E, R):
         want_key = base64.b64encode(bytes.fromhex(case["nonce"])).decode()
         keys = [l.split(":", 1)[1].strip() for l in lines if l.lower().startswith("sec-websocket-key:")]
         hosts = [l.split(":", 1)[1].strip() for l in lines if l.lower().startswith("host:")]
-        res_s = "".join(map(chr, cfg["resource"])); host_s = "".join(map(chr, cfg["host"]))
-        if keys != [want_key] or lines[0] != f"GET {res_s} HTTP/1.1" or hosts != [f"{host_s}:{cfg['port']}"] or not req.endswith("\r\n\r\n"):
+        res_s = url_target(cfg["url"] or "ws://localhost"); host_s = "".join(map(chr, cfg["host"]))
+        if lines[0] != f"GET {res_s} HTTP/1.1" and lines[0] == f"GET {drop_path_params(res_s)} HTTP/1.1":
+            ck.violation("client.startHandshake/request-target/path-params-dropped", f"the ';params' of the last path segment of {cfg['url']!r} are missing from the request line {lines[0]!r} "
+                         "(parse_url uses urlparse, which splits them off, and never puts them back)", dict(rep, request=req[:300]), found_input=True)
+        elif keys != [want_key] or lines[0] != f"GET {res_s} HTTP/1.1" or hosts != [f"{host_s}:{cfg['port']}"] or not req.endswith("\r\n\r\n"):
             ck.violation("client.startHandshake/request-target", "request line / Host / key of the request differ from the factory's URL components and nonce", dict(rep, request=req[:400]), found_input=True)
         if "after_timeout" in x:
             at = x["after_timeout"]
@@ -964,6 +1013,9 @@ def analyse(ck, fw, S, Cc, E, R):
         for o in (so, co):
             if o["kind"] == "escaped":
                 ck.violation(escape_key("e2e", o["cls"]), "exception escapes during a handshake between the library's own client and server", rep, found_input=True)
+        req_line = bytes.fromhex(x["client"]["request"]).split(b"\r\n")[0].decode("utf8")
+        if req_line != "GET %s HTTP/1.1" % url_target(m["pick"]["url"]) and req_line != "GET %s HTTP/1.1" % drop_path_params(url_target(m["pick"]["url"])):
+            ck.violation("client.startHandshake/request-target", f"request line {req_line!r} does not carry the raw path and query of the URL {m['pick']['url']!r}", rep, found_input=True)
         both = so["kind"] == "open" and co["kind"] == "open"
         if m["compatible"] and not both:
             ck.violation(f"interop/fails/{so['kind']}-{co['kind']}", "the library's own client and server do not complete the handshake under a compatible configuration", rep, found_input=True)
